@@ -20,42 +20,44 @@ import (
 )
 
 type Exec struct {
-	eng       *Engine
-	vc        *VC
-	top       *ssa.Function
-	contract  *Contract
-	heapSorts map[string]Sort
-	written   map[string]bool
-	epochCtr  int
-	allocCtr  int64
-	entry     *State
-	nilSeen   map[string]*ssa.BasicBlock
-	checkConv bool
-	arith     string // "math" (default) | "wrap" | "checked"
-	inlineStack []*ssa.Function
-	counters  []*TrackClause
-	unsupported []string
-	inSpec bool
-	matched map[string]bool
-	poolVals map[string]bool
-	freshStore bool
-	assumeNil bool
+	eng           *Engine
+	vc            *VC
+	top           *ssa.Function
+	contract      *Contract
+	heapSorts     map[string]Sort
+	written       map[string]bool
+	epochCtr      int
+	allocCtr      int64
+	entry         *State
+	nilSeen       map[string]*ssa.BasicBlock
+	checkConv     bool
+	arith         string // "math" (default) | "wrap" | "checked"
+	inlineStack   []*ssa.Function
+	counters      []*TrackClause
+	unsupported   []string
+	inSpec        bool
+	boxedAddrs    map[string]VAddr
+	subLits       map[string]Term
+	matched       map[string]bool
+	poolVals      map[string]bool
+	freshStore    bool
+	assumeNil     bool
 	inlinedInLoop bool
-	specErrors []string
-	usedModels map[string]bool
+	specErrors    []string
+	usedModels    map[string]bool
 }
 
 type Frame struct {
-	fn      *ssa.Function
-	regs    map[ssa.Value]Value
-	args    []Value
-	free    []Value
-	prefix  string // obligation-name prefix for inlined frames
-	top     bool
-	entry   *State
-	curBlk  *ssa.BasicBlock
-	results []Value
-	loops   map[*ssa.BasicBlock]*loopInfo
+	fn       *ssa.Function
+	regs     map[ssa.Value]Value
+	args     []Value
+	free     []Value
+	prefix   string // obligation-name prefix for inlined frames
+	top      bool
+	entry    *State
+	curBlk   *ssa.BasicBlock
+	results  []Value
+	loops    map[*ssa.BasicBlock]*loopInfo
 	contract *Contract
 }
 
@@ -66,13 +68,14 @@ type edge struct {
 }
 
 type loopInfo struct {
-	header  *ssa.BasicBlock
-	body    map[*ssa.BasicBlock]bool
-	ordinal int
-	snap    *State // state at header after havoc+assume
-	inv     []*Clause
-	dec     *Clause
-	decVal  []Term
+	header     *ssa.BasicBlock
+	body       map[*ssa.BasicBlock]bool
+	ordinal    int
+	snap       *State // state at header after havoc+assume
+	inv        []*Clause
+	dec        *Clause
+	decVal     []Term
+	appendOnly map[string]bool
 }
 
 func (x *Exec) assume(st *State, fact Term) {
@@ -641,8 +644,34 @@ func (x *Exec) phiValue(fr *Frame, phi *ssa.Phi, b *ssa.BasicBlock, edges []edge
 func (x *Exec) loopWrites(fr *Frame, li *loopInfo) (cells map[*ssa.Alloc]bool, keys map[string]Sort, all bool) {
 	cells = map[*ssa.Alloc]bool{}
 	keys = map[string]Sort{}
+	li.appendOnly = map[string]bool{}
+	nonAppend := map[string]bool{}
+	defer func() {
+		for k := range nonAppend {
+			delete(li.appendOnly, k)
+		}
+	}()
 	for b := range li.body {
 		for _, in := range b.Instrs {
+			if ci, ok := in.(ssa.CallInstruction); ok {
+				if bi, ok := ci.Common().Value.(*ssa.Builtin); ok && bi.Name() == "append" && !ci.Common().IsInvoke() {
+					for k := range x.eng.callFrame(ci).keys {
+						li.appendOnly[k] = true
+					}
+				} else {
+					for k := range x.eng.callFrame(ci).keys {
+						nonAppend[k] = true
+					}
+				}
+			}
+			if st, ok := in.(*ssa.Store); ok {
+				tmpc := map[*ssa.Alloc]bool{}
+				tmpk := map[string]Sort{}
+				x.eng.storeTargetLoop(st.Addr, tmpc, tmpk)
+				for k := range tmpk {
+					nonAppend[k] = true
+				}
+			}
 			switch in := in.(type) {
 			case *ssa.Store:
 				x.eng.storeTargetLoop(in.Addr, cells, keys)
@@ -728,13 +757,26 @@ func (x *Exec) enterLoop(fr *Frame, li *loopInfo, st *State) {
 		x.havocAll(st)
 	}
 	for _, k := range sortedKeys(keys) {
+		if li.appendOnly[k] && strings.HasPrefix(k, "elems|") {
+			// only append() writes these element arrays inside the loop, and append writes into a
+			// backing array it allocates: arrays that existed before the loop are unchanged
+			oldT := x.heapGet(st, k, keys[k])
+			x.havocKey(st, k, keys[k])
+			x.vc.ctr++
+			q := Term{fmt.Sprintf("o!q%d", x.vc.ctr), SInt}
+			body := Implies(Gt(q, IntLit(0)), Eq(Select(st.heap[k], q), Select(oldT, q)))
+			x.assume(st, Term{fmt.Sprintf("(forall ((%s Int)) (! %s :pattern (%s)))", q.S, body.S, Select(st.heap[k], q).S), SBool})
+			continue
+		}
 		x.havocKey(st, k, keys[k])
 	}
 	var cs []*ssa.Alloc
 	for c := range cells {
 		cs = append(cs, c)
 	}
-	sort.Slice(cs, func(i, j int) bool { return cs[i].Pos() < cs[j].Pos() || (cs[i].Pos() == cs[j].Pos() && cs[i].Name() < cs[j].Name()) })
+	sort.Slice(cs, func(i, j int) bool {
+		return cs[i].Pos() < cs[j].Pos() || (cs[i].Pos() == cs[j].Pos() && cs[i].Name() < cs[j].Name())
+	})
 	mono := monotoneCells(li)
 	for _, c := range cs {
 		if old, ok := st.cells[c]; ok {
@@ -923,8 +965,22 @@ func fieldKey(skey string, st *types.Struct, i int) string {
 }
 
 func (x *Exec) subRef(obj Term, skey string, st *types.Struct, i int) Term {
+	// an embedded struct of an object allocated by this function is itself a new object
+	if isFreshRef(obj) {
+		k := obj.S + "|" + fieldKey(skey, st, i)
+		if t, ok := x.subLits[k]; ok {
+			return t
+		}
+		x.allocCtr++
+		t := IntLit(-x.allocCtr)
+		x.subLits[k] = t
+		return t
+	}
 	f := x.vc.Fun("sub|"+fieldKey(skey, st, i), []Sort{SInt}, SInt)
-	return app(SInt, f, obj)
+	t := app(SInt, f, obj)
+	// an embedded struct of a pre-existing object is a pre-existing (non-nil) object
+	x.fact("sub:"+t.S, Implies(Gt(obj, IntLit(0)), Gt(t, IntLit(0))))
+	return t
 }
 
 func (x *Exec) loadField(st *State, obj Term, stt *types.Struct, skey string, i int) Value {
@@ -937,6 +993,7 @@ func (x *Exec) loadField(st *State, obj Term, stt *types.Struct, skey string, i 
 	case KIface:
 		tag := Select(x.heapGet(st, key+"#t", arrOf(SInt)), obj)
 		x.fact("tag:"+tag.S, Ge(tag, IntLit(0)))
+		x.ifaceTyping(tag, ft)
 		val := Select(x.heapGet(st, key+"#v", arrOf(SInt)), obj)
 		if ft.String() == "error" || x.eng.onlyRefImplementers(ft) {
 			x.entryRefFact(val)
@@ -961,7 +1018,42 @@ func (x *Exec) loadField(st *State, obj Term, stt *types.Struct, skey string, i 
 		if k := kindOf(ft); k == KRef || k == KMap {
 			x.entryRefFact(t)
 		}
+		x.typeInvFact(st, t, ft)
 		return VTerm{t}
+	}
+}
+
+// typeInvFact assumes the declared invariant of an immutable configuration object when a pointer
+// to it is read (see TypeInv).
+func (x *Exec) typeInvFact(st *State, ptr Term, typ types.Type) {
+	p, ok := typ.(*types.Pointer)
+	if !ok || x.inSpec || x.top == nil {
+		return
+	}
+	n, ok := p.Elem().(*types.Named)
+	if !ok {
+		return
+	}
+	ti := x.eng.contracts.TypeInvs[n.Obj().Name()]
+	if ti == nil || ti.Except[fnKey(x.top, x.eng.home)] {
+		return
+	}
+	key := "typeinv:" + ptr.S
+	if x.vc.declared[key] || strings.Contains(ptr.S, "!q") {
+		return
+	}
+	x.vc.declared[key] = true
+	pred := x.eng.contracts.Preds[ti.Pred]
+	if pred == nil || len(pred.Params) != 1 {
+		return
+	}
+	env := x.newEnv(&Frame{fn: x.top, regs: map[ssa.Value]Value{}}, st, st, map[string]TV{pred.Params[0]: {VTerm{ptr}, typ}}, x.top)
+	x.inSpec = true
+	g := env.evalBool(pred.Body)
+	x.inSpec = false
+	if env.err == nil {
+		x.vc.assumption("configuration objects of type %s satisfy %s once NewTranscoder has returned (established by the registration functions)", ti.Type, ti.Pred)
+		x.assume(st, Implies(Neq(ptr, IntLit(0)), g))
 	}
 }
 
@@ -1238,7 +1330,11 @@ func (x *Exec) loadGlobal(st *State, g *ssa.Global, typ types.Type) Value {
 		return VAddr{Kind: AOpaque, Opaque: x.heapScalar(st, name, SInt), ElemT: typ.Underlying().(*types.Pointer).Elem()}
 	}
 	s, _ := scalarSort(typ)
-	return VTerm{x.heapScalar(st, name, s)}
+	t := x.heapScalar(st, name, s)
+	if _, isPtr := typ.Underlying().(*types.Pointer); isPtr && strings.HasSuffix(t.S, "@0|") {
+		x.fact("globref:"+t.S, Ge(t, IntLit(0)))
+	}
+	return VTerm{t}
 }
 
 // heapScalar: a heap key holding a plain value rather than an array (globals, ghost variables).
